@@ -264,9 +264,10 @@ def m_truthy_idx(s):
 CAT = {}
 
 
-def entry(name, text, a, b, model, needs="num", keeps=(), out="num", first_only=False, max_n=None, last_only=False):
+def entry(name, text, a, b, model, needs="num", keeps=(), out="num", first_only=False, max_n=None, last_only=False, eager=0):
+    # eager: items of its input the stage takes when it is BUILT, whatever is demanded later (ḣ computes the head at once)
     CAT[name] = dict(name=name, text=text, a=a, b=b, model=model, needs=needs, keeps=set(keeps), out=out,
-                     first_only=first_only, max_n=max_n, last_only=last_only)
+                     first_only=first_only, max_n=max_n, last_only=last_only, eager=eager)
 
 
 ARITH = dict(needs="arith", out="same")
@@ -310,7 +311,7 @@ entry("merge_nat", "Þ∞ J", 1, 0, m_ident, needs="any", out="same", keeps=("in
 for _k in (0, 1, 2, 3, 5, 8):
     entry(f"from{_k}", f"{_k}ȯ", 1, _k, m_drop(_k), needs="any", out="same", keeps=("inj", "consec"))
 entry("behead", "Ḣ", 1, 1, m_drop(1), needs="any", out="same", keeps=("inj", "consec"))
-entry("head_extract", "ḣ $ _", 1, 1, m_drop(1), needs="any", out="same", keeps=("inj", "consec"))
+entry("head_extract", "ḣ $ _", 1, 1, m_drop(1), needs="any", out="same", keeps=("inj", "consec"), eager=1)
 entry("uniquify", "U", 1, 0, m_ident, needs="inj", out="same", keeps=("inj", "consec"))
 entry("uniq_mask", "ÞU", 1, 0, m_uniq_mask, needs="num", out="num")
 entry("group", "Ġ", 1, 1, m_group, needs="inj", out="list", keeps=("inj",))
@@ -422,7 +423,8 @@ def need_of(stages, n):
     k = n
     for name in reversed(stages):
         e = CAT[name]
-        k = max(0, e["a"] * k + e["b"]) if k > 0 else 0  # nothing is needed for nothing
+        k = max(0, e["a"] * k + e["b"]) if k > 0 else 0  # nothing is needed for nothing ...
+        k = max(k, e["eager"])                             # ... except what a stage takes when it is built
     return k
 
 
